@@ -33,7 +33,21 @@ func deviceRoots(c *Ctx, dv *dev) (*lockAnalysis, bool) {
 			return out
 		}
 		// a handler taken from a read-only dispatch table of the package
-		return roTableTargets(c.P, cc.Value)
+		if ts := roTableTargets(c.P, cc.Value); len(ts) > 0 {
+			return ts
+		}
+		// a local variable holding one of several method values / closures
+		if ts, ok := localFuncTargets(cc.Value); ok {
+			return ts
+		}
+		// a function value the enclosing helper was handed by its callers
+		if ts, ok := paramFuncTargets(c.P, cc.Value); ok {
+			if ts == nil {
+				ts = []*ssa.Function{}
+			}
+			return ts
+		}
+		return nil
 	}
 	pe := dv.fn["ProcessEvents"]
 	// T0: the part of ProcessEvents that runs while the helpers may run: reachable from a `go`
@@ -538,6 +552,52 @@ func isCtxDone(v ssa.Value) bool {
 	}
 	if call.Call.IsInvoke() && call.Call.Method.Name() == "Done" {
 		if n, ok := call.Call.Value.Type().(*types.Named); ok && n.Obj().Name() == "Context" {
+			// the context must be the one the helper was given, or derived from it: a context made from
+			// context.Background() is not cancelled when the device ends
+			return ctxFromCaller(call.Call.Value, 0)
+		}
+	}
+	return false
+}
+
+// ctxFromCaller: v is a context handed in by the caller (parameter, captured variable) or derived from one by
+// context.WithCancel/WithTimeout/WithDeadline/WithValue.
+func ctxFromCaller(v ssa.Value, depth int) bool {
+	if depth > 8 {
+		return false
+	}
+	switch x := v.(type) {
+	case *ssa.Parameter, *ssa.FreeVar:
+		return true
+	case *ssa.MakeInterface:
+		return ctxFromCaller(x.X, depth+1)
+	case *ssa.ChangeInterface:
+		return ctxFromCaller(x.X, depth+1)
+	case *ssa.Phi:
+		for _, e := range x.Edges {
+			if !ctxFromCaller(e, depth+1) {
+				return false
+			}
+		}
+		return true
+	case *ssa.Extract:
+		if call, ok := x.Tuple.(*ssa.Call); ok && x.Index == 0 {
+			if f := call.Call.StaticCallee(); f != nil && f.Pkg != nil && f.Pkg.Pkg.Path() == "context" && strings.HasPrefix(f.Name(), "With") && len(call.Call.Args) > 0 {
+				return ctxFromCaller(call.Call.Args[0], depth+1)
+			}
+		}
+	case *ssa.Call:
+		if f := x.Call.StaticCallee(); f != nil && f.Pkg != nil && f.Pkg.Pkg.Path() == "context" && strings.HasPrefix(f.Name(), "With") && len(x.Call.Args) > 0 {
+			return ctxFromCaller(x.Call.Args[0], depth+1)
+		}
+	case *ssa.UnOp:
+		// a captured or spilled context variable
+		if a, ok := x.X.(*ssa.Alloc); ok {
+			if w := wholeStore(a); w != nil {
+				return ctxFromCaller(w, depth+1)
+			}
+		}
+		if _, ok := x.X.(*ssa.FreeVar); ok {
 			return true
 		}
 	}
